@@ -31,12 +31,20 @@ LOCAL_KNOWN = [
     # objects that pass admission validation
     ("snapshot:addr-unique:admitted:ServiceEntry",
      "a service on port 15001 (the sidecar's own virtualOutbound port) yields a second listener on 0.0.0.0:15001; Envoy rejects it (duplicate address)"),
-    ("snapshot:weights:admitted:tag=vs-huge-weights",
-     "validation admits HTTP route weights whose sum exceeds 4294967295 (it adds them in an int32); Envoy rejects the RouteConfiguration"),
-    ("snapshot:api-valid:RouteAction_HashPolicy_Header.HeaderName:_value_length_must_be_at_least_N_runes:admitted:tag=dr-empty-hash",
-     "validation admits consistentHash.httpHeaderName = \"\"; the generated hash policy is rejected by Envoy (header_name min_len 1)"),
-    ("snapshot:api-valid:Cluster_RingHashLbConfig.MinimumRingSize:_value_must_be_less_than_or_equal_to_N:admitted:tag=dr-empty-hash",
-     "validation admits consistentHash.minimumRingSize above Envoy's maximum 8388608; Envoy rejects the cluster"),
+    ("snapshot:dup-fcm:admitted:gateway-tls-servers-same-sni-different-namespace-qualifier",
+     "upstream-known istio#24638: TLS servers of one gateway port and bind whose hosts name the same SNI host under different namespace "
+     "qualifiers (two Gateways in different namespaces with hosts ./foo.com, or default/* and ./*) pass CheckDuplicates (it compares the "
+     "namespaced strings) and yield two filter chains with the same server_names match; Envoy rejects the listener. Pinned by the unedited "
+     "test TestGatewayConflicts/duplicate_tls_gateway, so not fixed"),
+    ("snapshot:dup-fcm:admitted:gateway-auto-passthrough-servers-overlapping-hosts",
+     "two AUTO_PASSTHROUGH servers on one port whose hosts overlap (*.example.org and api.example.org) each emit the SNI-DNAT filter chain "
+     "of the same service: duplicate match, listener rejected"),
+    ("snapshot:dup-fcm:admitted:gateway-tls-server-then-plaintext-tcp-server-on-one-port",
+     "mergeGateways rule 3 (no TLS and plain TCP on one port) is only enforced when the plaintext server comes first; TLS server first, "
+     "then an opaque TCP server: both kept, a wildcard-host TLS chain and the TCP chain both have the empty match"),
+    ("snapshot:dup-fcm:admitted:gateway-plaintext-servers-one-port-other-bind-in-between",
+     "mergeGateways keeps plainTextServers per port only: a plaintext server on another bind overwrites the entry, a later HTTP server on the "
+     "first bind is not merged into the existing one and a second HTTP filter chain with the empty match is built"),
     # objects admission validation rejects, loaded past it: generation copies the invalid value into the Envoy
     # configuration and Envoy rejects the response (no crash). One class per violated clause / API rule.
     ("snapshot:weights:invalid-input", "invalid VirtualService weights / an HTTP route without action reach weighted_clusters unchanged"),
@@ -49,8 +57,9 @@ LOCAL_KNOWN = [
     ("snapshot:api-valid:HeaderValue.Key:_value_length_must_be_at_least_N_runes:invalid-input", "an empty header name in headers.set/add reaches request_headers_to_add"),
     ("snapshot:api-valid:HeaderMatcher.Name:_value_length_must_be_at_least_N_runes:invalid-input", "an empty header name in a match reaches a HeaderMatcher"),
     ("snapshot:api-valid:Cluster.ConnectTimeout:_value_must_be_greater_than_Ns:invalid-input", "a negative connectTimeout reaches the cluster"),
+    ("snapshot:api-valid:Cluster_RingHashLbConfig.MinimumRingSize:_value_must_be_less_than_or_equal_to_N:invalid-input", "a ring size above Envoy's maximum reaches the cluster"),
     ("snapshot:api-valid:FilterChainMatch.DestinationPort:_value_must_be_inside_range_[N:invalid-input", "a port-level PeerAuthentication for port 0 / above 65535 reaches an inbound filter chain match"),
-    ("snapshot:api-valid:RouteAction_HashPolicy_Header.HeaderName:_value_length_must_be_at_least_N_runes:invalid-input", "as the admitted variant, in a rejected object"),
+    ("snapshot:api-valid:RouteAction_HashPolicy_Header.HeaderName:_value_length_must_be_at_least_N_runes:invalid-input", "an empty consistentHash.httpHeaderName reaches the route hash policy"),
 ]
 
 
@@ -265,7 +274,63 @@ def fingerprint(ctx, min_lines, cls, tag):
         return "snapshot:%s:invalid-input" % c, True, sorted(rtags | atags)
     if atags:
         return "snapshot:%s:admitted:tag=%s" % (c, "+".join(sorted(atags))), False, sorted(atags)
+    if cls == "bad dup-fcm" and "Gateway" in kinds:
+        g = classify_gateway_merge(min_lines)
+        if g:
+            return "snapshot:dup-fcm:admitted:%s" % g, False, []
     return "snapshot:%s:admitted:%s" % (c, "+".join(sorted(kinds)) or "Service"), False, []
+
+
+def classify_gateway_merge(min_lines):
+    """Witness classes of the gateway server merge (mergeGateways) that yield two filter chains with one match.
+    Decided on the Gateway objects of the MINIMAL mesh; None = none of the known shapes (the violation then keeps
+    its generic fingerprint and fails the run)."""
+    from urllib.parse import unquote
+    servers = []
+    for l in min_lines:
+        f = l.split()
+        if f[0] != "cfg" or f[1] != "Gateway":
+            continue
+        ns = unquote(f[2]) if f[2] != "~" else ""
+        try:
+            spec = json.loads(unquote(f[6]))
+        except ValueError:
+            continue
+        for srv in spec.get("servers", []):
+            port = srv.get("port") or {}
+            hosts = []
+            for h in srv.get("hosts", []):
+                q, _, hp = h.rpartition("/")
+                if q == ".":
+                    q = ns
+                if q == "*":
+                    q = ""
+                hosts.append((q, hp))
+            tls = srv.get("tls")
+            proto = (port.get("protocol") or "").upper()
+            servers.append({"port": port.get("number"), "bind": srv.get("bind", ""), "hosts": hosts, "proto": proto,
+                            "tls": tls is not None and proto in ("HTTPS", "TLS"),
+                            "mode": (tls or {}).get("mode", "PASSTHROUGH" if tls is not None else ""),
+                            "http": proto in ("HTTP", "HTTP2", "GRPC", "GRPC-WEB", "HTTP_PROXY")})
+    pairs = [(a, b) for i, a in enumerate(servers) for b in servers[i + 1:] if a["port"] == b["port"]]
+    # istio#24638: TLS servers on one port and bind with a common SNI host under different namespace qualifiers
+    for a, b in pairs:
+        if a["tls"] and b["tls"] and a["bind"] == b["bind"]:
+            for (qa, ha) in a["hosts"]:
+                for (qb, hb) in b["hosts"]:
+                    if ha == hb and qa != qb:
+                        return "gateway-tls-servers-same-sni-different-namespace-qualifier"
+    for a, b in pairs:
+        if a["mode"] == "AUTO_PASSTHROUGH" and b["mode"] == "AUTO_PASSTHROUGH" and a["bind"] == b["bind"]:
+            return "gateway-auto-passthrough-servers-overlapping-hosts"
+    for a, b in pairs:
+        if a["bind"] == b["bind"] and a["tls"] != b["tls"] and not (a["http"] or b["http"]):
+            return "gateway-tls-server-then-plaintext-tcp-server-on-one-port"
+    for a, b in pairs:
+        if a["bind"] == b["bind"] and a["http"] and b["http"] and not a["tls"] and not b["tls"]:
+            if any(c["port"] == a["port"] and c["bind"] != a["bind"] and not c["tls"] for c in servers):
+                return "gateway-plaintext-servers-one-port-other-bind-in-between"
+    return None
 
 
 # ---------------------------------------------------------------------------------------------- stream snapshot
@@ -475,8 +540,29 @@ def replay(ctx, path):
 
 
 MANIFEST = {
-    "level_text": "filled in below",
-    "level_note": "filled in below",
-    "technique": "Lean 4: verified snapshot monitor (sound+complete) run on real full pushes + exact kernel models with differential correspondence",
+    "level_text": ("PARTIAL. Lean 4 proof of (a) a snapshot monitor: `WellFormed` states the property over an abstract xDS snapshot (names unique per "
+                   "type, no two listeners on one address, every RDS/EDS name that is referenced and requested is produced, virtual-host names and "
+                   "case-insensitive domains unique per route configuration, filter-chain matches distinct per listener, weights in range, every "
+                   "resource valid for the API's own validation) and `wellFormedB` / `firstViolation` are proved sound AND complete for it "
+                   "(wellFormedB_iff, firstViolation_sound, firstViolation_first); (b) exact models of the conflict-resolution kernels with their "
+                   "uniqueness theorems for ALL inputs: dedupeDomains (domains_unique_after_dedupe), normalizeClusters "
+                   "(clusters_unique_after_normalize, normalize_first_wins), always-answer (requested_names_answered), the outbound listener conflict "
+                   "rule (listener_conflict_total, one_entry_per_key, locked_frozen), the gateway TLS-host duplicate filter (accepted_hosts_unique), "
+                   "each linked to the monitor clause it establishes. NOT proved: that xDS generation as a whole always yields a WellFormed snapshot "
+                   "or terminates - that is explored: the verified monitor runs on real full pushes (real FakeDiscoveryServer, real CDS/EDS/LDS/RDS "
+                   "generators) of random meshes from colliding valid objects and from objects mutated past validation, for sidecar, router and "
+                   "waypoint proxies, and must agree with an independent Go re-statement and accept."),
+    "level_note": ("Weakest fit of the 20 properties: proof covers the monitor and five kernels, not generation (~100k lines); evidence separates proved "
+                   "obligations (theorems) from explored snapshots (coverage.proved_vs_explored, counters snapshot.*; ~1750 real snapshots per quick "
+                   "run, ~26000 thorough). Trusted: Lean kernel + {propext, Classical.choice, Quot.sound}; the hand-written kernel models (tied by "
+                   "differential streams domains/clusters/answer/gwdup and the exhaustive 930-row table lconflict on the real functions); the "
+                   "reduction of Envoy protos to the abstract snapshot (cross-checked on every snapshot by the Go re-statement on the protos); hooks "
+                   "pilot/pkg/networking/core/zz_verif_c14.go, zz_verif_c12.go; Envoy's acceptance rules taken from the API comments (no Envoy "
+                   "runs; dup-fcm is match equality, not Envoy's stronger overlap check); admission = schema ValidateConfig (CRD CEL rules not "
+                   "run); nil elements of repeated fields not generated; ambient cases toggle features.EnableAmbient* in-process. 15 defects found "
+                   "and fixed in /repo (9 with admitted objects); 1 admitted known finding (service port 15001/15006 vs the sidecar's virtual "
+                   "listeners) and the family 'invalid input reaches Envoy config unsanitised' are listed as known with per-clause fingerprints; "
+                   "every crash and every other clause still fails the run."),
+    "technique": "Lean 4: verified snapshot monitor (sound+complete) run on real full pushes (T-mon) + exact kernel models with differential / exhaustive correspondence (T-diff)",
     "design_ref": "DESIGN.md section 5 C14",
 }
